@@ -66,7 +66,9 @@ def worker(doc, hashseed="0", timeout=1500):
     env["PYTHONPATH"] = REPO + os.pathsep + ROOT + os.pathsep + env.get("PYTHONPATH", "")
     env["PYTHONHASHSEED"] = str(hashseed)
     env["PYTHONDONTWRITEBYTECODE"] = "1"
-    env["PATH"] = "/venv/bin" + os.pathsep + env.get("PATH", "")
+    # clang-format is made UNAVAILABLE for every configuration (the worker drops every PATH entry that has one):
+    # utils.format_cpp then returns the unformatted text deterministically.  The external formatter needs gigabytes on the
+    # large graphs and a memory/time-limited run could fail differently under load; unformatted text is at least as sensitive.
     p = subprocess.run([PY, "-m", "fav.workers.c09_worker"], input=json.dumps(doc), capture_output=True, text=True,
                        cwd=ROOT, env=env, timeout=timeout)
     if p.returncode != 0:
